@@ -127,6 +127,8 @@ class Run:
         self.crates = []
         self.replay = None          # payload of a replay file (bin/check <id> --replay <path>)
         self.replayed = False
+        self.deferred = []          # lemma ids left to the thorough tier (quick runs only)
+        self._groups = {}           # cover witnesses of case-split lemmas: group id -> {cover: satisfied by some case}
 
     # -- bookkeeping ---------------------------------------------------------------------------
     def uses(self, *spans):
@@ -149,7 +151,8 @@ class Run:
     def write_replay(self, lemma, payload):
         os.makedirs(os.path.join(VERIF, "replays"), exist_ok=True)
         h = hashlib.sha256(json.dumps(payload, sort_keys=True).encode()).hexdigest()[:10]
-        path = os.path.join(VERIF, "replays", "%s-%s-%s.json" % (self.prop, lemma.replace("/", "_"), h))
+        import re
+        path = os.path.join(VERIF, "replays", "%s-%s-%s.json" % (self.prop, re.sub(r"[^A-Za-z0-9._-]+", "_", lemma).strip("_"), h))
         payload = dict(payload, property=self.prop, lemma=lemma)
         with open(path, "w") as f:
             json.dump(payload, f, indent=1, ensure_ascii=False)
@@ -188,16 +191,28 @@ class Run:
     def kani(self, crate, lemmas, timeout=None, parallel=None):
         """lemmas: list of dict(id, harness, covers=[...], role=fn(res, replay_out)->str, api=fn(res)->(bool, detail)|None,
         claim=str).  Runs all harnesses in parallel, then replays failures natively."""
-        timeout = timeout or (150 if self.tier == "quick" else 900)
+        timeout = timeout or (600 if self.tier == "quick" else 900)      # per harness; generous on purpose: a slower machine must not turn a lemma that holds into exit 2
         if DEV_ONLY:      # development aid (never set by a registered command): run only the lemmas whose id contains the substring; no evidence is written
             lemmas = [l for l in lemmas if DEV_ONLY in l["id"]]
             if not lemmas:
                 return
+        if self.tier == "quick" and self.replay is None:
+            # lemmas marked deep=True are discharged in the thorough tier only (measured > ~100 s of solver time per harness on the reference machine:
+            # the quick command has to finish on every change); the quick run names them in its output and evidence and gives no verdict on them
+            for l in lemmas:
+                if l.get("deep"):
+                    self.deferred.append(l["id"])
+                    log("  [deferred] %s: discharged by the thorough tier only" % l["id"])
+            lemmas = [l for l in lemmas if not l.get("deep")]
+            if not lemmas:
+                return []
         self.crates.append(crate)
         if self.replay is not None:
             # replay mode: no solver; the recorded values are fed to the same harness, natively, on the current tree
             for l in lemmas:
-                if l["id"] != self.replay.get("lemma", "").split("[")[0] or self.replay.get("engine") != "kani":
+                if l["id"].split("[")[0] != self.replay.get("lemma", "").split("[")[0] or self.replay.get("engine") != "kani":
+                    continue
+                if self.replay.get("harness") not in (None, l["harness"]):      # case-split lemmas: the recorded values belong to one case's harness
                     continue
                 self.replayed = True
                 vals = self.replay["values"]
@@ -240,6 +255,12 @@ class Run:
     def _kani_batch(self, batch, parallel=None):
         all_jobs, metas = [], []
         for crate, lemmas, timeout in batch:
+            if self.tier == "quick":
+                # floor for the per-harness cap of the quick tier: a harness that needs 400 s on the reference machine was seen to need 600+ s on a slower,
+                # cold one; a cap that fires on a lemma that holds is exit 2 on the unchanged tree, which is worse than a long run.  What keeps the quick
+                # command short is the choice of lemmas (deep=True ones are left to the thorough tier), not the cap
+                for l in lemmas:
+                    l["timeout"] = max(l.get("timeout", timeout), 1200)
             jobs = [(crate, l["harness"], {"timeout": l.get("timeout", timeout)}) for l in lemmas]
             # listed known findings of a lemma need the lemma discharged again with their roles assumed away: start those
             # variants together with the base run (same verdict logic, only the wall time changes)
@@ -285,7 +306,14 @@ class Run:
         want = l.get("covers", [])
         if r["status"] == "success":
             missing = [c for c in want if r["covers"].get(c) != "SATISFIED"]
-            unsat = [c for c, s in r["covers"].items() if s != "SATISFIED"]
+            # case-split lemmas: a witness listed in `group_covers` has to be satisfied by at least one harness of the group (checked in finish()),
+            # not by every case; the covers in `covers` stay mandatory for every case
+            grp = l.get("group_covers")
+            if grp:
+                g = self._groups.setdefault(grp[0], {c: False for c in grp[1]})
+                for c in grp[1]:
+                    g[c] = g[c] or r["covers"].get(c) == "SATISFIED"
+            unsat = [c for c, s in r["covers"].items() if s != "SATISFIED" and not (grp and c in grp[1])]
             if missing or unsat:
                 return self.inconclusive_(lid, "vacuity guard: cover witnesses not satisfied: %s" % (missing + unsat))
             if want or r["covers"]:
@@ -403,6 +431,10 @@ class Run:
     def finish(self, level="model_checking", explanation=""):
         for c in self.crates:
             c.cleanup()
+        for gid, g in self._groups.items():
+            miss = [c for c, ok in g.items() if not ok]
+            if miss and not any(o.lemma_id.startswith(gid) and o.status != "holds" for o in self.outcomes):
+                self.inconclusive_(gid, "vacuity guard: no case of the split satisfies the cover witnesses %s" % miss)
         wall = round(time.time() - self.t0, 2)
         cov = {
             "evaluations": self.queries,
@@ -418,6 +450,7 @@ class Run:
             "queries_discharged": self.queries,
             "solver_time_s": round(self.solver_time, 2),
             "lemmas": [dict(lemma=o.lemma_id, status=o.status, **{k: v for k, v in o.info.items() if k in ("key", "what", "why", "replay")}) for o in self.outcomes],
+            "deferred_to_thorough_tier": self.deferred,
             "known_findings_reproduced": [k for (_, k) in self.known_hits],
             "engines": {"kani": kani_run.kani_version() if self.crates else "not used", "smt": "z3-new 5.1.0 primary; z3 4.8.12 / cvc5 1.0 cross-check in thorough tier"},
             "exhaustive": False,
